@@ -56,8 +56,8 @@ INVS = {
     ("C09", "obs"): "Inv_C09_SafetyObsClean Inv_C09_GcUnexplained",
     # (Inv_C10_Source - pruning blocked and source nodes present while a job runs - is a design invariant checked by
     #  R1 only: the property itself is the completeness of the finished job)
-    ("C10", "strict"): "Inv_C10_CompleteUnexplained Report_E1 Report_E2 Report_E3",
-    ("C10", "obs"): "Inv_C10_CompleteUnexplained",
+    ("C10", "strict"): "Inv_C10_CompleteUnexplainedT Report_E1 Report_E2 Report_E3 Report_E4 Report_E5",
+    ("C10", "obs"): "Inv_C10_CompleteUnexplainedT",
 }
 
 # known deviation classes reported by the trace specification through @@KF marks
@@ -84,6 +84,14 @@ KNOWN = {
     "KFE3": ("C10", "C10/checkpoint-incomplete/E3-after-incomplete-job-in-same-snapshot-db",
              "a checkpoint only adds the nodes marked since the previous snapshot/checkpoint: after a job that left the "
              "snapshot DB incomplete (E1/E2) the following checkpoints are incomplete too"),
+    "KFE4": ("C10", "C10/checkpoint-incomplete/E4-hash-unmarked-by-older-checkpoint-then-new-snapshot-db",
+             "commitCheckpoint unmarks a copied hash in every hashes holder entry, also in entries of newer committed roots "
+             "that contain the node; after a snapshot of a root without the node opened a new snapshot DB, the checkpoint of "
+             "the newer root does not copy the node"),
+    "KFE5": ("C10", "C10/checkpoint-incomplete/E5-node-of-older-version-absent-from-snapshot-root",
+             "TakeSnapshot(S) -> RemoveCommitted(S) drops the hashes holder entries committed up to S although S does not "
+             "contain all their nodes (S on a branch rolled back later / node removed before S and re-added after); a later "
+             "checkpoint of a root containing such a node finds it unmarked and the snapshot DB lacks it"),
 }
 
 
